@@ -59,6 +59,7 @@ try:
                 res[p]["replay_excerpt"] = {kk: v.get(kk) for kk in ("kind", "operation", "implementation", "specification", "note", "no_failing_input", "what") if kk in v}
 finally:
     subprocess.run(["git", "-C", "/repo", "checkout", "--", "."], check=True)
+        subprocess.run(["git", "-C", "/repo", "clean", "-fdq", "src", "tests"], check=True)
 meta["checks_quick"] = res
 meta["detected_by"] = [p for p, v in res.items() if v["rc"] == 1]
 notes = open(f"{src}/notes.md").read() if os.path.exists(f"{src}/notes.md") else ""
